@@ -153,7 +153,7 @@ def f_list(case):
     nt_idx = False
     if ix['t'] == 'int':
         i = ix['i'] % n - (n if ix['neg'] else 0)
-        it = P[i]
+        it = P[np.int64(i) if ix.get('npint') else i]
         li, ki = Bk.read_pauli(it)
         check(list(li) == refl[i][0] and ki == refl[i][1], 'P[%d] = %s' % (i, ref.show(li, ki)), 'getitem')
         check(type(it).__name__ == 'Pauli', 'P[int] is a %s' % type(it).__name__, 'getitem-type')
@@ -181,7 +181,7 @@ def f_list(case):
 def st_index(neg_step=True):
     steps = [None, 1, 2, -1, -2, 3] if neg_step else [None, 1, 2, 3]      # torch tensors cannot be sliced with a negative step
     return st.one_of(
-        st.fixed_dictionaries({'t': st.just('int'), 'i': st.integers(0, 20), 'neg': st.booleans()}),
+        st.fixed_dictionaries({'t': st.just('int'), 'i': st.integers(0, 20), 'neg': st.booleans(), 'npint': st.booleans()}),
         st.fixed_dictionaries({'t': st.just('slice'), 'a': st.one_of(st.none(), st.integers(-6, 6)), 'b': st.one_of(st.none(), st.integers(-6, 6)), 'c': st.sampled_from(steps)}),
         st.fixed_dictionaries({'t': st.just('mask'), 'bits': st.lists(st.booleans(), min_size=1, max_size=6)}),
         st.fixed_dictionaries({'t': st.just('index'), 'idx': st.lists(st.integers(0, 20), min_size=0, max_size=6)}))
